@@ -177,7 +177,7 @@ def r1(cx):
     for k in known:
         for x in f.bodies_like(k):
             known_ids.add(x.id)
-    for b in f.bodies.values():
+    for b in f.scan_bodies():
         if b.kind == "method" and b.self_ty == TXN and b.is_pub and not b.impl_trait:
             if b.id in known_ids:
                 continue
@@ -361,7 +361,7 @@ def r6(cx):
     f = cx.f
     n = 0
     allowed_owner_files = ("transaction.rs",)
-    for b in f.bodies.values():
+    for b in f.scan_bodies():
         hit = False
         for i, j, lhs, rv, line in b.assigns():
             for pl in [lhs] + rvalue_places(rv):
